@@ -454,7 +454,35 @@ def check_engine(case, ctx: Ctx):
         shutil.rmtree(loc, ignore_errors=True)
 
 
+def budget_catalogue():
+    """Deterministic corner of the `policy` domain that every run executes: every spelling of the maximum (absent, -1, 0,
+    1, 2, 5) x every spelling of the hook file (absent, empty, named; present on disk or not) against a task that keeps
+    dying of a restartable reason, with an agreeable hook - the runs in which the budget, and nothing else, has to end
+    the restarts (or, where the statement says unlimited, does not)."""
+    out = []
+    for max_restarts in (None, -1, 0, 1, 2, 5):
+        for hook_file in (None, "", "custom.py"):
+            for present in (False, True):
+                for tail in ("Success", "KnownIssue"):
+                    out.append({"reasons": ["ResourceExhausted"] * 9 + [tail], "maxRestarts": max_restarts,
+                                "restartHookFile": hook_file, "hookPresent": present, "restartHookOn": None,
+                                "shutdownOn": [], "hook": ["possible"] * 8, "sched": "fifo", "subfail_as_exit": False,
+                                "unstable": None})
+    return out
+
+
 def shard(ctx: Ctx):
+    for idx, case in enumerate(budget_catalogue()):
+        if idx % ctx.nshards != ctx.shard or ctx.stop:
+            continue
+        ctx.rec.evaluations += 1
+        try:
+            check(case, ctx)
+        except Violation as v:
+            v.case, v.sub = case, "policy"
+            ctx.rec.violations.append(v.to_dict())
+            ctx.stop = True
+            return
     explore(ctx, "policy", cases(), check, ctx.n(960, 40000), batch=60, shrink=True)
     explore(ctx, "engine", engine_cases(), check_engine, ctx.n(240, 8000), batch=30)
     explore(ctx, "observer", observer_cases(), check_observer, ctx.n(320, 12000), batch=20, shrink=True)
